@@ -48,7 +48,17 @@ class ThreadStage:
         for p in range(self.procs):
             nthreads = rng.choice([2, 3, 4, 8, 16])
             secs = []
+            staggered = (p % 2 == 1)
             for t in range(nthreads):
+                if staggered:
+                    # staggered first calls: the time spent generating the first input differs per thread, so one thread is
+                    # deep inside a multi-chunk update while another is still inside feature detection
+                    n = rng.choice([3 * 1024 + 1, 40 * 1024, 150 * 1024, 300 * 1024]) + 1024 * t * rng.randrange(0, 20)
+                    if self.impl == "rs":
+                        secs.append(["H new a hash", f"H upd a {pat(n, rng)}", "H fin a", f"H upd a {pat(5000, rng)}", "H fin a"])
+                    else:
+                        secs.append(["C init a hash", f"C upd a {pat(n, rng)}", "C fin a 32", f"C upd a {pat(5000, rng)}", "C fin a 32"])
+                    continue
                 if self.impl == "rs":
                     sc = c02.history(rng, "portable", rng.randrange(2, 12), 60 * 1024) if rng.random() < 0.6 else c03.history(rng, "portable", rng.randrange(2, 10))
                 else:
@@ -132,7 +142,7 @@ class GlobalsStage:
 
 
 def stages(tier, seed, witness_search=False):
-    procs = 12 if tier == "quick" else 300
+    procs = 30 if tier == "quick" else 400
     if witness_search:
         procs *= 3
     return [ThreadStage("rs-threads", "rs", procs, seed), ThreadStage("c-threads", "c", procs, seed + 1), GlobalsStage()]
